@@ -86,6 +86,26 @@ def decide(sc, spec=None):
     if not done:
         return False, {"stage": "replay", "problem": "plan replayed successfully but the terminal flag was never set",
                        "plan_length": len(plan)}
+    # the same plan when the scenario's step limit is EXACTLY its length (generate(..., step_limit=k) with the k of the
+    # shortest solution found): the goal-reaching step is also the last permitted one and must still be terminal
+    try:
+        import nasim.scenarios.utils as u
+        d2 = dict(sc.scenario_dict); d2[u.STEP_LIMIT] = steps
+        from nasim.scenarios import Scenario
+        sc2 = Scenario(d2, name="verif", generated=getattr(sc, "generated", False))
+        env2 = NASimEnv(sc2, fully_obs=False, flat_actions=True, flat_obs=True)
+    except Exception:
+        env2 = None
+    if env2 is not None:
+        env2.reset()
+        done2 = False
+        for act in plan[:steps]:
+            i = index.get((act["type"], act["name"], tuple(act["target"])))
+            sm.arm(1e-12 if act["prob"] > 0 else 0.5)
+            o, r, done2, trunc, info = env2.step(i)
+        if not done2:
+            return False, {"stage": "replay", "problem": "with step_limit equal to the plan length the goal-reaching (last permitted) "
+                                                         "step does not set the terminal flag", "plan_length": steps}
     return True, {"plan_length": steps}
 
 
